@@ -134,13 +134,15 @@ func scanAlone(b []byte) (*stack.Snapshot, error) {
 }
 
 func c07StreamOracle(c c07StreamCase) error {
-	h := resumeLoop(c.D.reader(c.S.Bytes()), plainOpts(), len(c.S.Items)+3)
+	opts, loose := variantOpts(c.S.Bytes())
+	defer looseFor(loose)()
+	h := resumeLoop(c.D.reader(c.S.Bytes()), opts, len(c.S.Items)+3)
 	if err := streamTruth(&c.S, &h, false); err != nil {
 		return err
 	}
 	snaps := h.snapshots()
 	for i := range c.S.Items {
-		alone, err := scanAlone(c.S.Items[i].dumpBytes())
+		alone, err := scanAloneOpts(c.S.Items[i].dumpBytes(), opts)
 		if alone == nil {
 			return fmt.Errorf("dump %d scanned alone gives no snapshot (err=%v)", i, err)
 		}
